@@ -55,12 +55,17 @@ type world struct {
 	proposerId []byte
 	groupId    []byte
 	progDesc   map[string]interface{} // programs currently installed on C0..C2
+	tokenCode  bool                   // this world's bound token contract has code (minimal ERC20 over the balance slots)
 	kmOp       byte                   // custom opcode KM's current code runs first (0: none)
 	c0Arg      *big.Int               // amount C0's current code forwards to KM (nil: C0 does not call KM)
 }
 
-func newWorld(r *hx.Rng) *world {
-	w := &world{World: nx.NewWorld(), heights: map[uint64]bool{}, h: 20, AuthCD: map[common.Address][]byte{}}
+func newWorld(r *hx.Rng, withTokenCode bool) *world {
+	w := &world{World: nx.NewWorld(), heights: map[uint64]bool{}, h: 20, AuthCD: map[common.Address][]byte{}, tokenCode: withTokenCode}
+	if withTokenCode {
+		w.ADB.SetNonce(nx.TokenContract, 1)
+		w.ADB.SetCode(nx.TokenContract, tokenCode())
+	}
 	for i := 0; i < 5; i++ {
 		w.S = append(w.S, nx.Addr(1+i))
 	}
@@ -118,7 +123,7 @@ func newWorld(r *hx.Rng) *world {
 	w.base = append(w.base, w.S...)
 	w.base = append(w.base, w.T...)
 	w.base = append(w.base, w.C...)
-	w.base = append(w.base, w.Auths[1])
+	w.base = append(w.base, w.Auths[1], reserve)
 	w.base = append(w.base, w.KM, w.MN, w.Auth, nx.TokenContract, common.ValidatorDBAddress, common.ProposerDBAddress, nx.Addr(0x41))
 	w.Boundary()
 	return w
@@ -455,6 +460,7 @@ type gen struct {
 	model  func(m *mctx) (string, bool) // Coq tx term
 	custom *customOp                    // STAKE / UNSTAKE / UNSTAKEALL run by the miner contract KM
 	negVal bool
+	ledger string // name of the ledger-contract-write sequence this tx belongs to
 }
 
 // cparams: the contract tx as it arrives, for the model's contract_tx (decode / precheck / intrinsic gas are the model's).
@@ -675,6 +681,12 @@ func (w *world) contractModel(src common.Address, cp cparams) func(m *mctx) (str
 				if e.V.Sign() != 0 {
 					m.results = append(m.results, zlit(e.Res)) // did the value move
 				}
+			case "TV": // the bound token contract's code moved value by writing two balance slots
+				evs = append(evs, fmt.Sprintf("V %d%%N %d%%N %s", m.idx(e.A), m.idx(e.B), zlit(e.V)))
+			case "TB": // ... destroyed value: accounted as a movement to the reserve pseudo account
+				evs = append(evs, fmt.Sprintf("V %d%%N %d%%N %s", m.idx(e.A), m.idx(reserve), zlit(e.V)))
+			case "TM": // ... created value: a movement from the reserve
+				evs = append(evs, fmt.Sprintf("V %d%%N %d%%N %s", m.idx(reserve), m.idx(e.B), zlit(e.V)))
 			case "K":
 				evs = append(evs, fmt.Sprintf("K %d%%N %d%%N", m.idx(e.A), m.idx(e.B)))
 			case "S":
@@ -859,6 +871,122 @@ func (w *world) mkRefund(id []byte, src common.Address, amt string) gen {
 		}}
 }
 
+// ---- the ledger moved by the bound token contract's own code ----
+func (w *world) tokenTx(r *hx.Rng, src common.Address, op uint64, a, b common.Address, amt *big.Int, seq string) gen {
+	data := tokenCall(op, a, b, amt)
+	gas := "3000000"
+	tx := nx.NewTx(types.TransactionTypeContract, nx.AddrHex(src), nx.AddrHex(nx.TokenContract), contractData(gas, "0", data), "")
+	return gen{kind: "token", tx: tx, ledger: seq,
+		desc:  map[string]interface{}{"src": short(w, src), "token-op": []string{"", "transfer", "transferFrom", "burn", "mint"}[op], "A": short(w, a), "B": short(w, b), "amount": amt.String()},
+		model: w.contractModel(src, cparams{true, gas, "0", data, false})}
+}
+
+func (w *world) genLedgerSeq(r *hx.Rng, installed *bool) []gen {
+	tag := func(gs []gen, seq string) []gen {
+		for i := range gs {
+			gs[i].ledger = seq
+			gs[i].desc["sequence"] = seq
+		}
+		return gs
+	}
+	switch r.Intn(4) {
+	case 0:
+		// X's balance is read by a fee check that refuses (precheck: gas*price + value > balance, no revert follows);
+		// a third party moves most of X's funds through the token contract; X spends natively
+		seq := "precheck-read;third-party-transferFrom;native-transfer"
+		x := w.S[1]
+		bal := w.ADB.GetBalance(x)
+		g1 := gen{kind: "call", tx: nx.NewTx(types.TransactionTypeContract, nx.AddrHex(x), nx.AddrHex(w.T[0]), contractData("3000000", "999999", nil), ""),
+			desc: map[string]interface{}{"src": short(w, x), "to": "T0", "gas": "3000000", "value": "999999"}, model: w.contractModel(x, cparams{true, "3000000", "999999", nil, false})}
+		move := new(big.Int).Sub(bal, nx.Wei("1"))
+		if move.Sign() < 0 {
+			move = new(big.Int)
+		}
+		g2 := w.tokenTx(r, w.S[0], 2, x, w.T[0], move, seq)
+		amt := []string{"100", "0.9", "2"}[r.Intn(3)]
+		targets := map[string]types.TransferData{nx.AddrHex(w.T[1]): {Balance: amt}}
+		extra, _ := json.Marshal(targets)
+		g3 := gen{kind: "transfer", tx: nx.NewTx(types.TransactionTypeOperatorEvent, nx.AddrHex(x), "", "", string(extra)),
+			desc: map[string]interface{}{"src": short(w, x), "extra": string(extra)},
+			model: func(m *mctx) (string, bool) {
+				v, ok := parseAmt(amt)
+				return fmt.Sprintf("TTransfer %d%%N [(%d%%N, %s)]", m.idx(x), m.idx(w.T[1]), optZ(v, ok)), true
+			}}
+		gs := []gen{g1, g2, g3}
+		if r.Intn(2) == 0 { // or X spends through a contract call carrying value
+			gs[2] = gen{kind: "call", tx: nx.NewTx(types.TransactionTypeContract, nx.AddrHex(x), nx.AddrHex(w.T[1]), contractData("3000000", amt, nil), ""),
+				desc: map[string]interface{}{"src": short(w, x), "to": "T1", "gas": "3000000", "value": amt}, model: w.contractModel(x, cparams{true, "3000000", amt, nil, false})}
+			seq = "precheck-read;third-party-transferFrom;native-call-value"
+		}
+		return tag(gs, seq)
+	case 1:
+		// inside one tx: C0 reads BALANCE(ORIGIN), makes the token contract move the origin's funds away (the call is C0's,
+		// not the origin's), optionally AUTHCALLs a value in the origin's name; then the executor charges the origin's gas
+		seq := "origin-balance-read;code-moves-origin;gas-charge"
+		*installed = true
+		src := w.S[1+3*r.Intn(2)] // S1 or S4
+		a := &nx.Asm{}
+		a.Op(nx.ORIGIN, nx.BALANCE, nx.POP)
+		a.PushU(2).PushU(0).Op(nx.MSTORE).Op(nx.ORIGIN).PushU(32).Op(nx.MSTORE).PushAddr(w.T[0]).PushU(64).Op(nx.MSTORE)
+		part := r.Intn(3)
+		switch part {
+		case 0:
+			a.Op(nx.ORIGIN, nx.BALANCE)
+		case 1:
+			a.PushU(1).Op(nx.ORIGIN, nx.BALANCE, nx.SUB) // balance - 1
+		default:
+			a.Push(nx.Wei("0.01"))
+		}
+		a.PushU(96).Op(nx.MSTORE)
+		a.PushU(0).PushU(0).PushU(128).PushU(0).PushU(0).PushAddr(nx.TokenContract).PushU(0xffffff).Op(nx.CALL, nx.POP)
+		d := []string{"balance(origin)", fmt.Sprintf("token.transferFrom(origin,T0,part%d)", part)}
+		if r.Intn(2) == 0 {
+			seq = "origin-balance-read;code-moves-origin;authcall-value"
+			k := r.Intn(len(w.Auths))
+			cd := w.AuthCDs[k][w.C[0]]
+			for off := 0; off < 128; off += 32 {
+				a.PushBytes(cd[off : off+32]).PushU(uint64(off)).Op(nx.MSTORE)
+			}
+			a.PushU(128).PushU(0).PushAddr(w.Auths[k]).Op(nx.AUTH, nx.POP)
+			a.PushU(0).PushU(0).PushU(0).PushU(0).PushU(0).Push(nx.Wei("0.25")).PushAddr(w.T[1]).PushU(0).PushU(0).Op(nx.AUTHCALL, nx.POP)
+			d = append(d, "authcall:T1 0.25")
+		}
+		if r.Intn(4) == 0 {
+			a.PushU(0).PushU(0).Op(nx.REVERT)
+			d = append(d, "revert")
+		} else {
+			a.Op(nx.STOP)
+			d = append(d, "stop")
+		}
+		w.c0Arg = nil
+		w.ADB.SetCode(w.C[0], a.B)
+		w.progDesc = map[string]interface{}{"C0": d, "C1": w.progDesc["C1"], "C2": w.progDesc["C2"]}
+		tx := nx.NewTx(types.TransactionTypeContract, nx.AddrHex(src), nx.AddrHex(w.C[0]), contractData("3000000", "0", nil), "")
+		g := gen{kind: "call", tx: tx, desc: map[string]interface{}{"src": short(w, src), "to": "C0", "gas": "3000000", "value": "0", "C0": d},
+			model: w.contractModel(src, cparams{true, "3000000", "0", nil, false})}
+		return tag([]gen{g}, seq)
+	default:
+		// plain use of the token contract: transfers by the owner, by a third party, burns and mints (accounted through
+		// the reserve), amounts around the balance
+		seq := "token-ops"
+		var gs []gen
+		for i := 0; i < 1+r.Intn(3); i++ {
+			src := w.S[[]int{0, 1, 1, 4}[r.Intn(4)]]
+			people := []common.Address{w.S[1], w.S[4], w.T[0], w.T[1], w.C[0], src, w.S[3]}
+			a, b := people[r.Intn(len(people))], people[r.Intn(len(people))]
+			op := uint64(1 + r.Intn(4))
+			from := a
+			if op == 1 {
+				from = src
+			}
+			bal := w.ADB.GetBalance(from)
+			amt := []*big.Int{new(big.Int), big.NewInt(1), nx.Wei("0.5"), bal, new(big.Int).Add(bal, big.NewInt(1)), nx.Wei("3")}[r.Intn(6)]
+			gs = append(gs, w.tokenTx(r, src, op, a, b, amt, seq))
+		}
+		return tag(gs, seq)
+	}
+}
+
 // custom opcodes: the miner contract KM runs STAKE / UNSTAKE / UNSTAKEALL with an amount from calldata and then stops
 // or reverts; it is called directly by the tx or through C0 (so that a reverting KM frame inside a succeeding tx
 // must take its stake / escrow effect back).
@@ -913,11 +1041,18 @@ func (w *world) genCustom(r *hx.Rng, src common.Address) gen {
 
 // burnOf replays the primitive-level trace to find what self-suicides destroyed (net of reverts).
 func burnOf(tr []nx.Ev) *big.Int {
+	b, _ := ledgerNet(tr)
+	return b
+}
+
+// ledgerNet: what survived the reverts of a trace: tokens destroyed by self-suicides, and the net amount the bound
+// token contract's own code created (mint - burn through SSTORE into balance slots).
+func ledgerNet(tr []nx.Ev) (*big.Int, *big.Int) {
 	type fr struct {
-		id   int
-		burn *big.Int
+		id         int
+		burn, code *big.Int
 	}
-	cur := new(big.Int)
+	cur, code := new(big.Int), new(big.Int)
 	var st []fr
 	for _, e := range tr {
 		switch e.Kind {
@@ -925,19 +1060,81 @@ func burnOf(tr []nx.Ev) *big.Int {
 			if e.A == e.B {
 				cur = new(big.Int).Add(cur, e.V)
 			}
+		case "TM":
+			code = new(big.Int).Add(code, e.V)
+		case "TB":
+			code = new(big.Int).Sub(code, e.V)
 		case "S":
-			st = append(st, fr{e.Id, new(big.Int).Set(cur)})
+			st = append(st, fr{e.Id, new(big.Int).Set(cur), new(big.Int).Set(code)})
 		case "R":
 			for i := len(st) - 1; i >= 0; i-- {
 				if st[i].id == e.Id {
-					cur = st[i].burn
+					cur, code = st[i].burn, st[i].code
 					st = st[:i]
 					break
 				}
 			}
 		}
 	}
-	return cur
+	return cur, code
+}
+
+// ---- the bound token contract WITH code: a minimal ERC20 over the storage layout of the native binding ----
+// calldata: word0 = op (1 transfer: from = CALLER; 2 transferFrom: from = word1; 3 burn: from = word1; 4 mint), word1 = A,
+// word2 = B (recipient), word3 = amount; balance slot = keccak(addr . 3). Debit requires balance >= amount (else REVERT).
+var reserve = nx.Addr(0x7777) // pseudo account standing for "created / destroyed by the token contract's code"
+var reserve0 = new(big.Int).Lsh(big.NewInt(1), 200)
+
+func tokenCode() []byte {
+	var b []byte
+	labels := map[string]int{}
+	fix := map[int]string{}
+	op := func(x ...byte) { b = append(b, x...) }
+	jmp := func(l string) { op(0x61, 0, 0); fix[len(b)-2] = l } // PUSH2 label
+	lab := func(l string) { labels[l] = len(b); op(0x5b) }
+	keyOf := func() { op(0x60, 0, 0x52, 0x60, 3, 0x60, 0x20, 0x52, 0x60, 0x40, 0x60, 0, 0x20) } // MSTORE(0, top); MSTORE(32, 3); KECCAK256(0, 64)
+	op(0x60, 0x60, 0x35)                                                                        // amt
+	op(0x60, 0, 0x35)                                                                           // amt op
+	op(0x80, 0x60, 1, 0x14)                                                                     // amt op isT
+	op(0x60, 0x20, 0x35, 0x33, 0x03, 0x02)                                                      // amt op isT*(CALLER-A)
+	op(0x60, 0x20, 0x35, 0x01)                                                                  // amt op from
+	op(0x90)                                                                                    // amt from op
+	op(0x80, 0x60, 4, 0x14)
+	jmp("credit")
+	op(0x57)
+	op(0x81)
+	keyOf()        // amt from op key
+	op(0x80, 0x54) // amt from op key bal
+	op(0x84, 0x81, 0x10)
+	jmp("fail")
+	op(0x57)             // bal < amt -> fail
+	op(0x84, 0x90, 0x03) // amt from op key bal-amt
+	op(0x90, 0x55)       // SSTORE(key, bal-amt)
+	lab("credit")        // amt from op
+	op(0x60, 3, 0x14)
+	jmp("end")
+	op(0x57) // amt from
+	op(0x60, 0x40, 0x35)
+	keyOf()                    // amt from key
+	op(0x80, 0x54, 0x83, 0x01) // amt from key bal+amt
+	op(0x90, 0x55)
+	lab("end")
+	op(0x00)
+	lab("fail")
+	op(0x60, 0, 0x60, 0, 0xfd)
+	for at, l := range fix {
+		b[at], b[at+1] = byte(labels[l]>>8), byte(labels[l])
+	}
+	return b
+}
+
+func tokenCall(op uint64, a, bb common.Address, amt *big.Int) []byte {
+	d := make([]byte, 128)
+	d[31] = byte(op)
+	copy(d[32+12:], a.Bytes())
+	copy(d[64+12:], bb.Bytes())
+	copy(d[96:], utility.LeftPadBytes(amt.Bytes(), 32))
+	return d
 }
 
 func main() {
@@ -951,7 +1148,8 @@ func main() {
 	blocksPerWorld := 100
 	for i := 0; i < a.N; i++ {
 		if w == nil || i%blocksPerWorld == 0 {
-			w = newWorld(rng)
+			nWorlds++
+			w = newWorld(rng, nWorlds%2 == 0)
 			w.setupMiners()
 		}
 		violated = false
@@ -1091,6 +1289,13 @@ func (w *world) step(r *hx.Rng, res *hx.Result, cs *hx.Cases) {
 		}
 		nTx = r.Intn(2)
 	}
+	if w.tokenCode && nTx > 0 && len(gens) == 0 && r.Intn(5) == 0 {
+		gens = w.genLedgerSeq(r, &installed)
+		nTx = 0
+		if r.Intn(3) == 0 {
+			nTx = 1
+		}
+	}
 	for i := 0; i < nTx; i++ {
 		g := w.generate(r, &installed)
 		gens = append(gens, g)
@@ -1098,7 +1303,7 @@ func (w *world) step(r *hx.Rng, res *hx.Result, cs *hx.Cases) {
 	}
 	// the first contract tx of a block is sometimes sent as a JSON-RPC (ETHTX) transaction: same executor core behind a
 	// nonce check; a refused one is dropped without receipt, so only funded senders with the right nonce are used
-	if len(gens) > 0 && (gens[0].kind == "call" || gens[0].kind == "create" || gens[0].kind == "custom") && r.Intn(4) == 0 {
+	if len(gens) > 0 && (gens[0].kind == "call" || gens[0].kind == "create" || gens[0].kind == "custom" || gens[0].kind == "token") && r.Intn(4) == 0 {
 		g := &gens[0]
 		src := srcOf(*g)
 		if w.ADB.GetBalance(src).Cmp(fee) >= 0 {
@@ -1132,6 +1337,7 @@ func (w *world) step(r *hx.Rng, res *hx.Result, cs *hx.Cases) {
 	w.heights[hd+refundIn] = true
 	w.heights[hd] = true
 
+	nx.LedgerAddrs = w.base
 	txs := make([]*types.Transaction, len(gens))
 	for i, g := range gens {
 		txs[i] = g.tx
@@ -1178,7 +1384,7 @@ func (w *world) step(r *hx.Rng, res *hx.Result, cs *hx.Cases) {
 		}
 		loopRs, _ = nx.RunPrefix(loopADB, hd, w.proposerId, groupId, txs)
 		for k, g := range gens {
-			if g.kind == "call" || g.kind == "create" || g.kind == "custom" {
+			if g.kind == "call" || g.kind == "create" || g.kind == "custom" || g.kind == "token" {
 				ci := nx.ExtractContract(pre[k], g.tx, headerOf(w, hd, groupId))
 				infos[k] = &ci
 			}
@@ -1219,8 +1425,12 @@ func (w *world) step(r *hx.Rng, res *hx.Result, cs *hx.Cases) {
 				idx(e.A)
 				idx(e.B)
 				idx(e.Auth)
-			case "V", "K":
+			case "V", "K", "TV":
 				idx(e.A)
+				idx(e.B)
+			case "TB":
+				idx(e.A)
+			case "TM":
 				idx(e.B)
 			case "St", "Us", "Ua":
 				idx(e.A)
@@ -1317,6 +1527,19 @@ func (w *world) step(r *hx.Rng, res *hx.Result, cs *hx.Cases) {
 	for k := 0; k <= n; k++ {
 		snaps[k] = w.read(pre[k], uni[:nUni], pctx[k])
 	}
+	// the reserve pseudo account: what the token contract's own code created so far in this block leaves it
+	ri := pos[reserve]
+	codeNet := new(big.Int)
+	snaps[0].bal[ri] = new(big.Int).Set(reserve0)
+	for k := 0; k < n; k++ {
+		if info := infos[k]; info != nil && info.Ran && rs[k].Status == 1 {
+			_, c := ledgerNet(info.Trace)
+			codeNet.Add(codeNet, c)
+		}
+		snaps[k+1].bal[ri] = new(big.Int).Sub(reserve0, codeNet)
+	}
+	before.bal[ri] = new(big.Int).Set(reserve0)
+	after.bal[ri] = new(big.Int).Sub(reserve0, codeNet)
 	totalBurn := new(big.Int)
 	classes := make([]string, n)
 	for k, g := range gens {
@@ -1417,12 +1640,15 @@ func (w *world) step(r *hx.Rng, res *hx.Result, cs *hx.Cases) {
 			case g.kind == "opnode" && success && new(big.Int).Neg(delta).Cmp(tenTok) == 0:
 				key = "C06/decrease-only:operator-node-charge-destroyed"
 				what = "a successful operator-node tx debits 10 tokens from the source and credits nobody: the sum decreases by something that is neither stake nor a self-destruct"
-			case (g.kind == "call" || g.kind == "create" || g.kind == "custom") && success && delta.Sign() > 0 && delta.Cmp(gasFee) <= 0 && pre[k+1].GetBalance(src).Sign() == 0 && !g.negVal:
+			case (g.kind == "call" || g.kind == "create" || g.kind == "custom" || g.kind == "token") && success && delta.Sign() > 0 && delta.Cmp(gasFee) <= 0 && pre[k+1].GetBalance(src).Sign() == 0 && !g.negVal:
 				key = "C06/gas-mint:unchecked-sub-after-origin-drained"
 				what = "contract executor credited the gas fee to the fee account without debiting the drained origin: supply grew by " + delta.String()
 			case g.negVal && delta.Sign() > 0:
 				key = "C06/negative-value:vm-cantransfer-unsigned"
 				what = "contract tx with a negative transferValue credited sender and recipient: supply grew by " + delta.String()
+			case g.ledger != "" && delta.Sign() > 0:
+				key = "C06/mint:ledger-contract-write:" + g.ledger
+				what = "after the bound token contract's code lowered a balance slot, a native spend of the old balance went through: balances + stake + escrow grew by " + delta.String()
 			case g.kind == "refund" && delta.Sign() < 0:
 				key = "C06/refund-exact:stake-released-but-not-scheduled"
 				what = "a miner refund released stake that was not scheduled for anybody: stake + escrow shrank by " + new(big.Int).Neg(delta).String()
@@ -1441,7 +1667,7 @@ func (w *world) step(r *hx.Rng, res *hx.Result, cs *hx.Cases) {
 			}
 		}
 		// a failed contract tx may leave nothing behind but fees
-		if (g.kind == "call" || g.kind == "create" || g.kind == "custom") && !success {
+		if (g.kind == "call" || g.kind == "create" || g.kind == "custom" || g.kind == "token") && !success {
 			for i := 1; i < nUni; i++ {
 				if uni[i] != src && snaps[k+1].bal[i].Cmp(snaps[k].bal[i]) != 0 {
 					violate(res, "C06/failed-tx:balance-of-third-party-changed", "a failed contract tx changed the balance of "+short(w, uni[i]), input)
@@ -1642,6 +1868,7 @@ func headerOf(w *world, h uint64, groupId []byte) *types.BlockHeader {
 }
 
 var violated bool
+var nWorlds int
 
 func violate(res *hx.Result, key, what string, input interface{}) {
 	violated = true
